@@ -273,7 +273,11 @@ def run_kernel_op(f, accel, mem):
     if wide and not MODEL_32BIT:
         # whether and how zero points and scaling apply on the 32-bit paths is not pinned down by anything available here (H6)
         raise Unmodelled("32-bit feature map datapath")
-    if wide and not (kind in ("conv", "depthwise") and o["bits"] == 32 and f["ifm"]["bits"] != 32 or kind == "elementwise" and f["mode"] == "MUL" and f["ifm"]["bits"] == 32 and o["bits"] != 32):
+    wide_ok = (kind in ("conv", "depthwise") and o["bits"] == 32 and f["ifm"]["bits"] != 32) or (kind == "elementwise" and f["mode"] == "MUL" and f["ifm"]["bits"] == 32)
+    if kind == "elementwise" and f["mode"] in ("ADD", "SUB") and f["ifm"]["bits"] == 32 and o["bits"] == 32 and "activation" in f and f["activation"]["lut_index"] is None:
+        # plain 32-bit sum/difference: only with unit operand and output scales (the lowering of SQUARED_DIFFERENCE); anything scaled stays unmodelled
+        wide_ok = f.get("ofm_scale", (1, 0)) == (1, 0) and f["ifm"]["scale_mode"] == 0 and f["opa_scale"][0] == 1 and f["opb_scale"][0] == 1 and o["zero_point"] == 0
+    if wide and not wide_ok:
         raise Unmodelled("32-bit feature map datapath (%s)" % (f.get("mode") or kind))
     ofm_zp = 0 if o["bits"] == 32 else o["zero_point"]  # reading used when MODEL_32BIT: a 32-bit OFM carries the raw scaled accumulator
     if kind in ("conv", "depthwise"):
@@ -344,7 +348,11 @@ def run_kernel_op(f, accel, mem):
                 a, b = b, a
         sc, sh = f.get("ofm_scale", (1, 0))
         if mode == "MUL":
-            v = scale_round(a * b, sc, sh, rmode) + o["zero_point"]
+            if f["ifm"]["bits"] == 32:
+                # H-model (bring-up rule, DESIGN 8.2): a 32-bit multiplication applies only the shift of the OFM scale ("for int32 scaling is not supported": the
+                # compiler multiplies by the scale as the second operand and programs the shift alone)
+                sc = 1
+            v = scale_round(a * b, sc, sh, rmode) + ofm_zp
         elif mode in ("ADD", "SUB"):
             sm = f["ifm"]["scale_mode"]
             opa, opa_shift = f["opa_scale"]
